@@ -61,6 +61,18 @@ CHECKS = {
         "text": "Configurations (switch, 0/1/2/4 origins, credentials, method/header lists, max-age; quick: covering subset, thorough: all 128) x 25 Origin values + absent x 3 methods x preflight headers: grants only for an Origin equal to a configured one, exact preflight lists, echo + credentials in allow-all mode, nothing without Origin.",
         "note": "Policy set through RWS_CONFIG_CORS_* in the process environment, as the server reads it per request; the start-up path that fills those variables is C12's subject.",
     },
+    "C06": {
+        "level": "model_checking",
+        "technique": "TLA+ Pool.tla (task kind panic, Guarded) and Server.tla model-checked by TLC with the unguarded variants refuted; histories replayed on the real ThreadPool running the closure body of Server::run over scripted transports (Trace_Pool), and against the real binary over sockets with capacity probes (Trace_Server)",
+        "text": "TLC: NoWorkerLost and Capacity (every connection is eventually done while fewer than N are held) for all interleavings of 5 connections on 2 workers; no-guard variants refuted. In-process: histories of failing jobs and 12 connection flavours (garbage, handler panic, read/write/flush faults, 5000 header lines) followed by two probes of N rendezvous tasks, schedule replay + free runs. Wire: every history of <= 2 (thorough 4) connections over {valid, bad, internal, close} for N in {1,2} plus long random ones; then N-1 silent sockets + one request, N requests in flight, process alive.",
+        "note": "Transport faults that a real socket cannot produce are reached through the mock transport on the real pool only. 3-4 s timeouts decide 'not answered'.",
+    },
+    "C08": {
+        "level": "model_checking",
+        "technique": "TLA+ Server.tla: EnvFsUnchanged (no action writes shared state) model-checked by TLC; wire traces of the real binary validated by TLC (Trace_Server: concurrent response = serial response taken from a fresh server)",
+        "text": "24 distinct requests (files up to 300 KB, ranges, HEAD/OPTIONS, three form endpoints carrying distinct secrets, errors) are each answered alone by a freshly started server; multisets of 16 (thorough 32) are then issued together against servers with 1..16 workers in several arrival patterns; every response must equal its serial reference except the timestamp header and the order of echoed form fields.",
+        "note": "Bodies over 600 bytes are compared by length and FNV-1a hash (computed by the projector).",
+    },
     "C07": {
         "level": "model_checking",
         "technique": "TLA+ spec of the pool (Pool.tla) model-checked by TLC (safety + liveness, spec mutants refuted); TLC-simulated schedules replayed step by step on the real ThreadPool through cfg(rws_verif) gates; free-running hook traces validated by TLC (Trace_Pool)",
